@@ -11,6 +11,7 @@ func init() {
 		add(JobConfigScenario{Name: "enabled-2jobs-delete-lag1", Schedule: "enabled", MaxJobs: 2, Kinds: kinds, Delete: true, Budget: mc.Budget{Lag: 1}})
 		add(JobConfigScenario{Name: "disabled-2jobs-lag2", Schedule: "disabled", MaxJobs: 2, Kinds: []string{"scheduled"}, Delete: true, Budget: mc.Budget{Lag: 2}})
 		add(JobConfigScenario{Name: "noschedule-2jobs-fault1", Schedule: "none", MaxJobs: 2, Kinds: []string{"adhoc"}, Delete: true, Budget: mc.Budget{Faults: 1}})
+		add(JobConfigScenario{Name: "enabled-2jobs-delete-tombstones", Schedule: "enabled", MaxJobs: 2, Kinds: kinds, Delete: true, Tombstones: true})
 		add(JobConfigScenario{Name: "preexisting2-restart", Schedule: "enabled", MaxJobs: 1, Preexist: 2, Kinds: []string{"scheduled"}, Delete: true, Budget: mc.Budget{Crashes: 1}})
 		add(JobConfigScenario{Name: "preexisting2-coldrestart", Schedule: "enabled", MaxJobs: 1, Preexist: 2, Kinds: []string{"scheduled"}, Delete: true, ColdStart: true, Budget: mc.Budget{Crashes: 1}})
 		add(JobConfigScenario{Name: "enabled-2jobs-fault1-lag1", Schedule: "enabled", MaxJobs: 2, Kinds: []string{"scheduled"}, Delete: true, Budget: mc.Budget{Faults: 1, Lag: 1}})
